@@ -606,7 +606,9 @@ var garbage = []string{"@if(true)x", "{{ \"abc", "{{-- x", "@each(v in", "{{ 1 +
 	// complete statements that are wrong in themselves (no prefix of a valid file looks like them)
 	"@component(\"item\", 5)", "@component(\"x\", \"y\")", "@component(\"x\", name)", "@component(\"x\", [1, 2])", "@component(\"x\", {a: 1}, 2)", "@if(a b)x@end", "@each(x y)a@end", "@each(x in)a@end",
 	"@for(i = 0; i < 3; i++; j = 1)y@end", "{{ x = }}", "{{ a ? b }}", "@if(a)x@else y@else z@end", "@if(a)x@else y@elseif(b)z@end", "@insert()", "@use()", "@reserve()", "{{ [1 2] }}", "{{ {a 1} }}", "{{ x. }}",
-	"{{ 99999999999999999999 }}", "@slot(\"a\", \"b\")", "@breakIf()", "{{ 1 + }} rest of the page", "fine so far\n\n@each(v in [1, 2])\n{{ v }}\n@end\n{{ ) }}"}
+	"{{ 99999999999999999999 }}", "@slot(\"a\", \"b\")", "@breakIf()", "{{ 1 + }} rest of the page", "fine so far\n\n@each(v in [1, 2])\n{{ v }}\n@end\n{{ ) }}",
+	// one insert name passed twice, in every pairing of the two forms
+	"@insert(\"t\", 1)@insert(\"t\", 2)", "@insert(\"t\", 1)\n@insert(\"t\")x@end", "@insert(\"t\")x@end\n@insert(\"t\")y@end", "@insert(\"t\")x@end@insert(\"t\", 2)", "@insert(\"a\", 1)@insert(\"t\")x@end@insert(\"b\")y@end@insert(\"t\")z@end"}
 
 // runFaults applies every fault to one file of a valid tree
 func runFaults(c *core.Ctx, ft faultTree, file string) {
